@@ -54,6 +54,21 @@ func c17Exec(depth int, masks []int) explore.Exec {
 			w = harness.NewWorld(mon, mask, [][]byte{kA, kB}, false)
 			w.SetCollection("x", "nil")
 			w.Hist = append(w.Hist, fmt.Sprintf("callbacks=%09b", mask))
+			// second initial state: a durable collection under the reverse
+			// comparator (its order must survive every way of re-loading roots)
+			initial := harness.Choose(2, harness.ClassOp)
+			prepare := func(w *harness.World) {
+				if initial == 1 {
+					w.SetCollection("y", "rev")
+					w.SetItem("y", kA, 1, bs("ya"))
+					w.SetItem("y", kB, 2, bs("yb"))
+					w.Flush()
+				}
+			}
+			if initial == 1 {
+				w.Hist = append(w.Hist, "init:y(rev){a,b}+Flush")
+			}
+			prepare(w)
 			for step := 0; step < depth && len(w.Viols) == 0; step++ {
 				ls := c17Letters(w)
 				k := harness.Choose(len(ls)+1, harness.ClassOp)
@@ -82,6 +97,7 @@ func c17Exec(depth int, masks []int) explore.Exec {
 			}
 			w0 = harness.NewWorld(mon, 0, [][]byte{kA, kB}, false)
 			w0.SetCollection("x", "nil")
+			prepare(w0)
 			for _, k := range picks {
 				ls := c17Letters(w0)
 				if k >= len(ls) {
@@ -118,9 +134,9 @@ func c17Exec(depth int, masks []int) explore.Exec {
 }
 
 func c17Profiles(tier string) []Profile {
-	dAll, dSingle := 2, 4
+	dAll, dSingle := 2, 3
 	if tier == "thorough" {
-		dAll, dSingle = 3, 5
+		dAll, dSingle = 3, 4
 	}
 	var all []int
 	for m := 0; m < 512; m++ {
